@@ -48,6 +48,8 @@ def make_model(case, ls):
     if geo == "time":
         return C(temporal=True, spatial_dim=d - 1, var=1.5, len_scale=ls, anis=[0.6, 1.4, 0.7][: d - 2] + [0.5], angles=[0.4, -0.3, 0.2][: (d - 1) * (d - 2) // 2], **opts)
     kw = {}
+    if geo == "rescaled":  # non-default rescale factor (enters every length of the model, also the lower cut-off of TPL models)
+        kw = dict(rescale=2.5)
     if geo == "aniso" and d > 1:
         kw = dict(anis=[0.6, 1.4, 0.8][: d - 1], angles=[0.4, -0.3, 0.7, 0.1, 0.2, -0.5][: d * (d - 1) // 2])
     return C(dim=d, var=1.5, len_scale=ls, **kw, **opts)
@@ -248,7 +250,9 @@ def run(chk):
     for cls in cf.SHIPPED:
         for d in (1, 2, 3, 4):
             sd_valid = cf.valid_dims(cls, 4)
-            for geo in ("iso", "aniso", "time", "latlon"):
+            for geo in ("iso", "aniso", "time", "latlon", "rescaled"):
+                if geo == "rescaled" and (cls not in cf.TPL and tier == "quick" or d == 4 or d not in sd_valid):
+                    continue
                 if geo == "latlon" and (d != 3 or 3 not in sd_valid):
                     continue
                 if geo == "time":
